@@ -67,4 +67,5 @@ def main():
         }
         json.dump(meta, open(os.path.join(dst, 'meta.json'), 'w'), indent=1)
 
-main()
+if __name__ == "__main__":
+    main()
